@@ -65,6 +65,9 @@ func c09Generate(r *common.Rand, overlap bool) mCase {
 		n = 13 + r.Intn(4)
 	}
 	c := c09GenerateN(r, overlap, n)
+	if n >= 3 && n <= 4 && r.Chance(25) {
+		c.Nest = 2 + r.Intn(n-2) // a nested merge handler in front of the remaining children
+	}
 	// single-session histories: now and then a child emits two or three of its messages in one go, with no
 	// sentinel in between (the sentinel is itself a message that reaches the client)
 	if r.Chance(50) {
